@@ -250,12 +250,12 @@ PROPS = {
         "partial": [], "assumptions": CTL_ASSUMPTIONS + CONN_ASSUMPTIONS,
     },
     "C11": {
-        "batches": lambda tier: ctl_batches("ahead", 600, 20000, per=200)(tier) + conn_batches([("bigunread", 3)], [("bigunread", 12)])(tier),
+        "batches": lambda tier: ctl_batches("ahead", 600, 20000, per=200)(tier) + conn_batches([("bigunread", 3), ("long", 3)], [("bigunread", 12), ("long", 9)])(tier),
         "replay_bin": "controlled", "need": ["ahead", "nohang", "noabort"], "need_intent": False, "agr_need": ["ahead", "seq", "wire"],
         "rule": "pipelines of 2..8 requests with bodies {none, 1, 2..1023, 1024} and optionally a first request with a 1025..9000-byte or chunked body that the application reads "
                 "to EOF on arrival; the application collects ALL requests before answering any (a deadlock — detected by the scheduler — iff read-ahead fails); "
                 "count of requests obtained while none is answered compared with the read-ahead model",
-        "required_tags": ["streamed_first:0", "streamed_first:1", "park:1", "park:0", "fam:bigunread"],
+        "required_tags": ["streamed_first:0", "streamed_first:1", "park:1", "park:0", "fam:bigunread", "fam:long"],
         "partial": [], "assumptions": CTL_ASSUMPTIONS,
     },
     "C13": {
